@@ -43,7 +43,7 @@ def cut_codes(impl, data):
         f.write(data)
     for k in range(n - 1, -1, -1):
         os.truncate(impl.path, k)             # the file as a crash after k bytes leaves it
-        with open(impl.path, "rb") as f:
+        with impl.open_load() as f:
             try:
                 entries, common, dt = impl.IndxIO.load(f)
             except Exception as e:  # noqa: any exception type counts as "rejected"
@@ -84,7 +84,7 @@ def torn_write(impl, entries, common, k, kill):
 
 def load_left(impl):
     """Load whatever is in impl.path: stage class of the refusal, or (0, repr of what was returned)."""
-    with open(impl.path, "rb") as f:
+    with impl.open_load() as f:
         try:
             entries, common, dt = impl.IndxIO.load(f)
         except Exception as e:  # noqa
@@ -201,7 +201,7 @@ def run(ctx):
             data = None
         if data is not None:
             codes, accepted = cut_codes(impl, data)
-            account(data, codes, accepted, dict(rec, stream="s"))
+            account(data, codes, accepted, dict(rec, stream="s", form=impl.last_form))
             lits_s.append("(%s, %s, %s, %s)" % (c10.lit_entries(entries), core.zlit(common), c10.lit_bytes(data), core.zlist(codes)))
             recs_s.append(dict(rec, file_len=len(data)))
         # (w) files of an independent writer
@@ -222,7 +222,7 @@ def run(ctx):
             continue
         cuts, rows_start = sample_cuts(ctx.rng, entries, common, data)
         kc, accepted = cut_codes_at(impl, data, cuts)
-        rec = {"entries": [[list(k), v] for k, v in entries], "common": common, "from": "scale", "stream": "S"}
+        rec = {"entries": [[list(k), v] for k, v in entries], "common": common, "from": "scale", "stream": "S", "form": impl.last_form}
         slim = {"entries_summary": [[list(k), len(v), v[:3]] for k, v in entries], "common": common, "from": "scale", "stream": "S", "file_len": len(data)}
         n_loads += len(kc)
         longest = max(longest, len(data))
@@ -279,6 +279,7 @@ def run(ctx):
     rw_ = core.run_cases("c12w", c10.PRELUDE, lits_w, "entries_t * Z * Z * Z * Z * Z * list Z", "chk_c12_layout", "explain_c12_layout", shard_size=80 if quick else 1600)
 
     ctx.evaluations = n_loads
+    impl.record_forms()
     ctx.coverage["distinct_nontrivial"] = sum(seen_files.values()) + sum(len(c) for _, c in sampled_pairs)      # distinct (file bytes, cut point) pairs
     ctx.samples = recs_s[:2] + recs_w[:2] + recs_s[-1:]
     ctx.coverage.update({
@@ -341,7 +342,7 @@ def replay(ctx, path):
             data = c10.enc(entries, c["common"], c["iw"], c["rw"], c.get("d0", 0))
         else:
             try:
-                data = impl.save(entries, c["common"])
+                data = impl.save(entries, c["common"], form=c.get("form") or dict(c10.PLAIN_FORM))
             except Exception as e:
                 print("entries=%r common=%r: save raised %s: %s" % (c["entries"], c["common"], type(e).__name__, e))
                 continue
